@@ -164,7 +164,10 @@ def parseRecs (le : Bool) (version : Nat) : Nat → Bool → List Nat → List N
               | none => [.short]
             else
               match readU32 le r2 with
-              | .ok n r3 => .blocks n :: parseRecs le version fuel haveFn r3
+              | .ok n r3 =>
+                -- more blocks announced than bytes left: "Unexpected number of blocks"
+                if n > r3.length then [.fail .blockCount]
+                else .blocks n :: parseRecs le version fuel haveFn r3
               | _ => [.short]
           else if tag = TAG_ARCS then
             if !haveFn then parseRecs le version fuel haveFn r2
